@@ -245,6 +245,8 @@ def _patch(p):
     p.numpy(*DATA_MODULES, "pyxel.detectors.characteristics", "pyxel.detectors.apd.apd_characteristics", "pyxel.detectors.geometry")
     p.attr("numba", "njit", lambda f=None, **kw: f if f is not None else (lambda g: g), "identity (cluster binning inside Charge.array)")
     p.builtins("pyxel.detectors.environment", "isinstance", "float", "int")
+    for mod in ("pyxel.detectors.characteristics", "pyxel.detectors.apd.apd_characteristics", "pyxel.detectors.geometry"):
+        p.builtins(mod, "float", "int")  # conversions of loaded values (float(x) of a symbolic number is the number)
 
 
 def roundtrip(det, route, symflags=None):
